@@ -426,9 +426,55 @@ def _resolve_generic_callee(term, gmap, by_key):
     return dict(term, callee=nc)
 
 
+def _alias_moved(fns_json):
+    """A free function of the pinned tree that was MOVED to another module (`helpers::f` -> `helpers::bytes::f`, the old
+    path kept alive by a re-export) is the same function under a new path: when a pinned free function is missing and
+    exactly one new free function has its name, the new one is given the pinned key everywhere (its own key, the keys of
+    its closures, every call that names it)."""
+    pinned = _pinned()
+    if not pinned:
+        return fns_json
+    have = {j["key"] for j in fns_json}
+    free = lambda j: j.get("kind") == "Fn" and not j.get("impl_self") and not j.get("impl_trait") and not j.get("from_expansion")
+    missing = {}
+    for k in pinned:
+        if k not in have and "<" not in k and "::{" not in k:
+            missing.setdefault(k.rsplit("::", 1)[-1], []).append(k)
+    if not missing:
+        return fns_json
+    new = {}
+    for j in fns_json:
+        if free(j) and j["key"] not in pinned:
+            new.setdefault(j["key"].rsplit("::", 1)[-1], []).append(j["key"])
+    ren = {}
+    for name, olds in missing.items():
+        if len(olds) == 1 and len(new.get(name, [])) == 1:
+            ren[new[name][0]] = olds[0]
+    if not ren:
+        return fns_json
+
+    def fix(v):
+        for a, b in ren.items():
+            if v == a:
+                return b
+            if isinstance(v, str) and v.startswith(a + "::"):
+                return b + v[len(a):]
+        return v
+
+    def walk(x):
+        if isinstance(x, dict):
+            return {k: (fix(v) if k in ("key", "parent_key") and isinstance(v, str) else walk(v)) for k, v in x.items()}
+        if isinstance(x, list):
+            return [walk(v) for v in x]
+        return x
+
+    return [walk(j) for j in fns_json]
+
+
 def inline_helpers(fns_json):
     """fns_json: list of function JSON objects.  Returns a list in which every caller of a private helper has the
     helper's body spliced in (helpers themselves stay in the list, also with their own helper calls inlined)."""
+    fns_json = _alias_moved(fns_json)
     by_key = {j["key"]: j for j in fns_json}
     # functions whose body differs from the pinned tree: combinators with closure literals become plain control flow,
     # tests of values with a known constructor are threaded (see desugar.py)
